@@ -27,8 +27,63 @@ RUN_IMPORTS = "From TV Require Import C39.Model C39.Run."
 RUN_FN = "run_case"
 CHECK_FN = "check_case"
 INPUT_TYPE = "c39_input"
-# Property.v states its theorems over exact rationals and over an arbitrary number type; none mentions
-# primitive floats, so Print Assumptions is closed.  (The float instance is only *evaluated*.)
+# All theorems of Property.v but one are stated over exact rationals / an arbitrary number type and are closed under the
+# global context.  C39_float_update_next_within_8ulp_of_exact (phase 4, via Flocq) is about the primitive binary64
+# operations and real numbers; Print Assumptions lists for it exactly: the 4 axioms of Coq's Reals
+# (ClassicalDedekindReals.sig_forall_dec, sig_not_dec, Classical_Prop.classic, functional_extensionality_dep), the
+# specification axioms of the primitive operations from the standard library (Floats.FloatAxioms.*_spec, Prim2SF/SF2Prim
+# round trips, Uint63.*_spec) and the primitive types/operations themselves (PrimFloat.*, PrimInt63.*).
+ALLOWED_AXIOMS = [
+    "ClassicalDedekindReals.sig_forall_dec",
+    "ClassicalDedekindReals.sig_not_dec",
+    "Classical_Prop.classic",
+    "FloatAxioms.Prim2SF_SF2Prim",
+    "FloatAxioms.Prim2SF_valid",
+    "FloatAxioms.SF2Prim_Prim2SF",
+    "FloatAxioms.abs_spec",
+    "FloatAxioms.add_spec",
+    "FloatAxioms.div_spec",
+    "FloatAxioms.eqb_spec",
+    "FloatAxioms.leb_spec",
+    "FloatAxioms.mul_spec",
+    "FloatAxioms.of_uint63_spec",
+    "FloatAxioms.sub_spec",
+    "FunctionalExtensionality.functional_extensionality_dep",
+    "PrimFloat.abs",
+    "PrimFloat.add",
+    "PrimFloat.div",
+    "PrimFloat.eqb",
+    "PrimFloat.float",
+    "PrimFloat.frshiftexp",
+    "PrimFloat.ldshiftexp",
+    "PrimFloat.leb",
+    "PrimFloat.ltb",
+    "PrimFloat.mul",
+    "PrimFloat.normfr_mantissa",
+    "PrimFloat.of_uint63",
+    "PrimFloat.opp",
+    "PrimFloat.sub",
+    "PrimInt63.add",
+    "PrimInt63.eqb",
+    "PrimInt63.int",
+    "PrimInt63.land",
+    "PrimInt63.leb",
+    "PrimInt63.lor",
+    "PrimInt63.lsl",
+    "PrimInt63.lsr",
+    "PrimInt63.ltb",
+    "PrimInt63.sub",
+    "Uint63.add_spec",
+    "Uint63.eqb_correct",
+    "Uint63.eqb_refl",
+    "Uint63.leb_spec",
+    "Uint63.lor_spec",
+    "Uint63.lsl_spec",
+    "Uint63.lsr_spec",
+    "Uint63.ltb_spec",
+    "Uint63.of_to_Z",
+    "Uint63.sub_spec",
+]
 
 
 
@@ -980,6 +1035,8 @@ TRUSTED_BASE = [
     "FIFO choice of which pending timer / created coroutine / suspended callback an event acts on (only matters after an out-of-scope restart)",
 ]
 ASSUMPTIONS = [
+    "C39_float_update_next_within_8ulp_of_exact: finite inputs, times in [0, 2^31] s, period in [2^-20, 2^20] s, next <= now (main branch); "
+    "rests on the standard-library axioms listed in ALLOWED_AXIOMS (Reals, FloatAxioms, Uint63)",
     "arithmetic clauses are checked when the effective period is at least 1 microsecond and all readings are finite; strict monotonicity of float deadlines below 2^31 s",
     "no Flocq-style error-bound theorem for the binary64 path: its tolerance clauses are evaluated on the implementation's floats, the exact statements are proved over Q",
     "overlap freedom is stated for runs in which start() is only called while idle (a restart while a coroutine callback is in flight starts a second timer chain)",
